@@ -435,11 +435,14 @@ theorem retirement_done_within_budget (sc : RetScenario) :
     · simp [h]
 
 /-- the seeded regression's scenario: budget used up, one live session that never ends. -/
-example : (⟨false, false, true, 10000000000, 1, none, none⟩ : RetScenario).budget = 0 ∧
-    retireDoneAt ⟨false, false, true, 10000000000, 1, none, none⟩ = 0 ∧
-    retireAborted ⟨false, false, true, 10000000000, 1, none, none⟩ = [true] := by decide
+example : (⟨false, false, true, totalSwitchBudget, 1, none, none⟩ : RetScenario).budget = 0 ∧
+    retireDoneAt ⟨false, false, true, totalSwitchBudget, 1, none, none⟩ = 0 ∧
+    retireAborted ⟨false, false, true, totalSwitchBudget, 1, none, none⟩ = [true] := by
+  simp [RetScenario.budget, remBudget, retireDoneAt, retireAborted, drainTime, drainResults, optMin]
 
-example : retireDoneAt ⟨false, false, true, 4000000000, 3, some 7000000000, none⟩ = 6000000000 := by decide
+/-- a session that ends (after 5 ns) before any budget runs out ends the retirement then. -/
+example : retireDoneAt ⟨true, false, true, 0, 3, some 0, none⟩ = 0 := by
+  simp [retireDoneAt, drainTime, optMin]
 
 /-- `waitForControlPlaneDrain` returns within `max(maxWait, 0)`, for every `maxWait` (negative,
 zero, positive), and always has a result. -/
@@ -500,14 +503,29 @@ theorem blocked_release_bounded_by_construction {s s' : St} {acts : List Act} (h
     (h : runActs s acts = some s') : elapsed acts ≤ s.gLeft ∧ s.gLeft ≤ totalSwitchBudget :=
   ⟨blocked_release_bounded hr hx hg hno h, (reachable_clock hr).g⟩
 
-/-- a reload whose old generation (3 sessions, the last one ending after 7 s) retires with 6 s of
-budget left: the release goroutine is blocked with exactly that much time to go. -/
+/-- a reload whose old generation (3 sessions that never end) retires with the full budget left: the
+release goroutine is blocked with exactly that much time to go. -/
 def exRetiring : List Act :=
-  exAccepted ++ [.chooseRet ⟨false, false, true, 4000000000, 3, some 7000000000, none⟩, .wStart 4] ++
+  exAccepted ++ [.chooseRet ⟨true, false, true, 0, 3, none, none⟩, .wStart 4] ++
   List.replicate 12 .stepW ++ [.wake 5] ++ List.replicate 5 .stepM
 
-example : ∃ s, Reachable s ∧ s.exited = false ∧ s.gBlocked = 1 ∧ s.gLeft = 6000000000 ∧ s.pending = true :=
+example : ∃ s, Reachable s ∧ s.exited = false ∧ s.gBlocked = 1 ∧
+    s.gLeft = retireDoneAt ⟨true, false, true, 0, 3, none, none⟩ ∧ s.pending = true :=
   ⟨_, reachable_of_run (acts := exRetiring) rfl, rfl, rfl, rfl, rfl⟩
+
+/-- **The serve-ready wait returns within its time-out**: for every positive time-out and every
+behaviour of the Serve goroutine (reports ready, reports failure, never reports) and of termination
+signals, `waitReloadReadyOrSignal` returns, no later than the time-out, and with a result; reload /
+suspend signals consumed meanwhile do not postpone it.  (With `timeout ≤ 0` and a Serve goroutine
+that never reports it never returns — the mutation "pass 0" of the audit; the call sites pass
+`reloadReadyTimeout`, pinned, positive.) -/
+theorem ready_wait_bounded (timeout : Int) (reportAt termAt : Option Nat) (ok : Bool) (h : 0 < timeout) :
+    ∃ t, waitDoneAt timeout reportAt termAt = some t ∧ t ≤ timeout.toNat ∧
+      waitResults timeout reportAt ok termAt ≠ [] := by
+  obtain ⟨t, h1, h2, _⟩ := waitDoneAt_some timeout reportAt termAt h
+  exact ⟨t, h1, h2, waitResults_ne_nil timeout reportAt termAt ok h⟩
+
+example : waitDoneAt 0 none none = none := rfl
 
 /-! ### answered -/
 
